@@ -1,15 +1,15 @@
-\* random behaviours (tlc -simulate) of both classes, printed for replay into the real objects
+\* random behaviours (tlc -simulate) of LSR objects, printed for replay into the real objects
 SPECIFICATION Spec
 CONSTANTS
-  Slopes <- MCSlopes2
-  Icpts <- MCIcpts2
-  Energies <- MCEnergies2
-  Temps = {250, 500}
-  MaxN = 2
+  Slopes <- MCSlopes
+  Icpts <- MCIcpts
+  Energies <- MCEnergies
+  Temps = {250, 500, 1000}
+  MaxN = 1
   MaxOps = 4
   Variant = "required"
-  Kinds = {"lsr", "ext"}
-  Stoichs = {2}
+  Kinds = {"lsr"}
+  Stoichs = {1, 2}
   ExtParts <- MCExtParts
 INVARIANT EmitBehaviours
 CHECK_DEADLOCK FALSE
